@@ -251,18 +251,31 @@ var tblSenderProcess = &tableSpec{
 		{`^Plugin\.Enqueue\(.*\)$`, "accepted"},
 		// the resolved receiver: the variable, or whatever helper was handed the two decoded forms
 		{`^\((?:\w+\.)?\w+\(var:logicalRecv,var:physicalRecv\) == nil\)$`, "(var:recv == nil)"},
+		// the decoding and resolution may live in a method of the worker that returns (receiver, error):
+		// its decisions are judged by the sender-resolve table, here only its verdict counts
+		{`^\(err\(SenderWorker\.\w+\([^()]*\)\) == nil\)$`, "(resolved == nil)"},
 		// whatever produced the body (inline json.Marshal, or a helper of any name): its error
 		{`^\((?:var:err|err\(.*\)) == nil\)$`, "(encode == nil)"},
 	},
 	Why: "C19: an undecodable or null receiver, an unresolvable address, a receiver type without a plugin, an unencodable body and a full plugin queue each complete the hand-off with an error (retried); only otherwise is the message handed to the plugin",
 	Spec: func(v *valuation) string {
-		if !v.B("(decode == nil)") {
-			return "error-completion"
+		if r, viaHelper := v.facts["(resolved == nil)"]; viaHelper {
+			v.used["(resolved == nil)"] = true
+			if !r {
+				return "error-completion"
+			}
+		} else {
+			if !v.B("(decode == nil)") {
+				return "error-completion"
+			}
+			if v.B("(var:logicalRecv == nil)") && v.B("(var:physicalRecv == nil)") {
+				return "error-completion"
+			}
+			if v.B("(var:recv == nil)") {
+				return "error-completion"
+			}
 		}
-		if v.B("(var:logicalRecv == nil)") && v.B("(var:physicalRecv == nil)") {
-			return "error-completion"
-		}
-		if v.B("(var:recv == nil)") || v.B("(plugin == nil)") {
+		if v.B("(plugin == nil)") {
 			return "error-completion"
 		}
 		if !v.B("(encode == nil)") || !v.B("accepted") {
@@ -270,6 +283,79 @@ var tblSenderProcess = &tableSpec{
 		}
 		return "handed-to-plugin"
 	}}
+
+// tblSenderResolve: the same decisions when they live in a method of the worker that decodes the
+// stored receiver and returns (receiver, error) (Func is filled in by ruleSenderTables).
+var tblSenderResolve = &tableSpec{
+	Name: "sender-resolve", Pkg: pkgSender, Recv: "SenderWorker", MinPaths: 4,
+	Rename: [][2]string{
+		{`util\.UnmarshalChain\([^()]*\)`, "decode"},
+		{`^\((?:\w+\.)?\w+\(var:logicalRecv,var:physicalRecv\) == nil\)$`, "(var:recv == nil)"},
+	},
+	Why: "C19: an undecodable or null receiver and an unresolvable address are errors; only otherwise is a receiver returned",
+	Outcome: func(pk *packages.Package, env *provEnv, self types.Object, p *codePath) string {
+		if p.Ret == nil || len(p.Ret.Results) != 2 {
+			return "?"
+		}
+		if exprString(p.Ret.Results[1]) == "nil" && exprString(p.Ret.Results[0]) != "nil" {
+			return "receiver"
+		}
+		if exprString(p.Ret.Results[1]) != "nil" && exprString(p.Ret.Results[0]) == "nil" {
+			return "error"
+		}
+		return "?"
+	},
+	Spec: func(v *valuation) string {
+		if !v.B("(decode == nil)") {
+			return "error"
+		}
+		if v.B("(var:logicalRecv == nil)") && v.B("(var:physicalRecv == nil)") {
+			return "error"
+		}
+		if v.B("(var:recv == nil)") {
+			return "error"
+		}
+		return "receiver"
+	}}
+
+// senderResolveFunc: the function of the sender package that decodes the stored receiver (the
+// UnmarshalChain call): Process itself, or a method it was extracted into.
+func senderResolveFunc(p *Program) *ast.FuncDecl {
+	pk := p.Pkg(pkgSender)
+	if pk == nil {
+		return nil
+	}
+	for _, fd := range allFuncDecls(pk) {
+		if fd.Body == nil || isTestFile(p, fd.Pos()) {
+			continue
+		}
+		for _, call := range callsIn(fd.Body) {
+			if fn, ok := calleeOf(pk.TypesInfo, call).(*types.Func); ok && fn.Name() == "UnmarshalChain" && fn.Pkg() != nil && fn.Pkg().Path() == pkgUtil {
+				return fd
+			}
+		}
+	}
+	return nil
+}
+
+// ruleSenderTables: the Process table, plus the resolve table when the resolution was extracted.
+func ruleSenderTables(c *Ctx) {
+	ruleTables(tblSenderProcess)(c)
+	rfd := senderResolveFunc(c.P)
+	if rfd == nil {
+		c.und("table/sender-resolve", 0, "the function that decodes the stored receiver was not found")
+		return
+	}
+	if funcName(rfd) == "SenderWorker.Process" {
+		return
+	}
+	ts := *tblSenderResolve
+	ts.Recv, ts.Func = "", rfd.Name.Name
+	if rfd.Recv != nil {
+		ts.Recv = "SenderWorker"
+	}
+	ruleTables(&ts)(c)
+}
 
 // tblApiProcess (C12/C13/C15): what the shared API helper makes of the kernel's completion entry:
 // an entry with an error is a server error (its Completion is nil and must not be touched), an
